@@ -55,9 +55,22 @@ op = st.one_of(
     st.tuples(st.just('description')),
 )
 
+fetch_op = st.one_of(
+    st.tuples(st.just('fetchone')),
+    st.tuples(st.just('fetchmany'), st.integers(0, 15)),
+    st.tuples(st.just('fetchmany_default')),
+    st.tuples(st.just('set_arraysize'), st.integers(1, 6)),
+    st.tuples(st.just('fetchall')),
+    st.tuples(st.just('iter'), st.none() | st.integers(0, 5)),
+    st.tuples(st.just('description')),
+)
+execute_op = st.tuples(st.sampled_from(['execute', 'execute', 'conn_execute']), st.sampled_from(QUERIES), st.integers(0, 13))
+# two shapes: free-form operation lists, and segments "execute, then a few fetches" (re-executes after delivery)
+segments = st.lists(st.tuples(execute_op, st.lists(fetch_op, min_size=1, max_size=6)), min_size=1, max_size=5).map(
+    lambda segs: [o for ex, fs in segs for o in [ex] + fs])
 history = st.fixed_dictionaries({
     'nrows': st.integers(0, 12),
-    'ops': st.lists(op, min_size=1, max_size=30),
+    'ops': st.one_of(st.lists(op, min_size=1, max_size=30), segments),
 })
 
 
